@@ -26,7 +26,10 @@ THEOREMS += ['CC.C01_gen_values', 'CC.C01_gen_predicates', 'CC.C01_gen_isfinite'
     'CC.C01_gen_power', 'CC.C01_gen_solution_vector']
 LEAN_MODULE_EXTRA = ['CC.Proofs.Solvable', 'CC.Properties.C01Gen', 'CC.Properties.C01Det']
 THEOREMS += ['CC.C01_det_ne_zero', 'CC.C01_det_iff', 'CC.C01_exists']
-OPEN_STATEMENTS = []
+OPEN_STATEMENTS = [
+    'C01_sound / C01_complete without the hypothesis WF.no_self_loop: FALSE for the current code (open finding: a self-loop branch is added to the diagonal); the real code and the executable model are run on self-loop networks on every run',
+    'the reference-direction convention of linear sources (shipped examples 3 and 14) is part of the Spec (Elem.lawResidual) and pinned by the harness corpus; the C01_examples theorem of the plan (DESIGN §5) was not written',
+]
 ASSUMPTIONS = [
     'binary64 arithmetic of numpy/LAPACK agrees with field arithmetic within 1e-9 relative on instances with cond(A) < 1e8',
     'numpy.linalg.solve is a parameter of the model: theorems hold for every vector with A·x = b; the driver checks that equation exactly',
